@@ -319,3 +319,6 @@ func (g *typeGen) fieldT(depth int) *Type {
 	}
 	return t
 }
+
+// IsSized reports whether values of t can be stored, loaded or allocated.
+func (t *Type) IsSized() bool { return t.sized() }
